@@ -280,6 +280,8 @@ for _pid in ('C01', 'C02', 'C03', 'C08'):
     PROPS[_pid].setdefault('nx', {})['linecomment'] = 'single-line comment normalisation at the lengths the separator rule needs: documented normal form and fixpoint (bounded stand-in extending KX rewriters)'
 PROPS['C16']['nx'] = {'filefmt': 'write() bytes and length, check mode = text equality and never writes, files mode leaves exactly the written bytes (no stale tail), undecodable file untouched (bounded stand-in)'}
 PROPS['C17']['nx'] = {'filefmt': 'bytes -> decode_file -> write round trip for 6 encoding / BOM cases: BOM decides and is preserved, decode inverse of encode, malformed input rejected, unencodable text rejected (bounded stand-in)'}
+PROPS['C02'].setdefault('nx', {})['mlstring'] = 'the documented normalisation of valid multi-line strings (common indentation, line terminators) changes nothing else (bounded stand-in)'
+PROPS['C10'].setdefault('nx', {})['mlstring'] = 'interior lines of re-indented multi-line strings get the same indentation strings (tabs or spaces) as every other line (bounded stand-in)'
 _PIPE = 'end-to-end clause executed natively on the real pipeline (make_formatter(config).format) over an exhaustively enumerated small domain: bounded stand-in for the composition through parser and line-wrapping search, which no contract reaches'
 for _pid in ('C01', 'C02', 'C03', 'C04', 'C05', 'C06', 'C07', 'C08', 'C09', 'C10', 'C11', 'C15'):
     PROPS[_pid].setdefault('nx', {})['pipeline'] = _PIPE
